@@ -228,6 +228,21 @@ func runC03Seq(src sim.Source, o Opts, res *Result) {
 					recheck(fmt.Sprintf("operation %d of %v", i, t), wrote)
 					if i == snapAt && !res.failed() {
 						snap(fmt.Sprintf("inside %v after operation %d", t, i), txn, txn, private)
+						if src.Intn("manyviews", 10) == 9 {
+							// hundreds of further views of the same transaction before its next write (whatever counts
+							// views or generations must not wrap): 255 more make 256 with the one just taken
+							n := sim.Pick(src, "nviews", []int{255, 255, 256, 254, 511, 512, 65535, 65536})
+							kind := src.Intn("viewkind", 3)
+							for v := 0; v < n; v++ {
+								if kind == 0 || (kind == 2 && v%2 == 0) {
+									_ = txn.Snapshot()
+								} else {
+									_ = txn.Iter()
+								}
+							}
+							res.inc("transactions_with_hundreds_of_views")
+							history = append(history, fmt.Sprintf("<%d further views>", n))
+						}
 					}
 				})
 				if ok {
